@@ -26,22 +26,28 @@ func yield(op string) {
 	r.Park(&hub.Parked{Kind: "atomic", Obj: op, Who: who})
 }
 
-func AddUint64(addr *uint64, delta uint64) uint64 { yield("AddUint64"); return real.AddUint64(addr, delta) }
-func AddUint32(addr *uint32, delta uint32) uint32 { yield("AddUint32"); return real.AddUint32(addr, delta) }
-func AddInt64(addr *int64, delta int64) int64     { yield("AddInt64"); return real.AddInt64(addr, delta) }
-func AddInt32(addr *int32, delta int32) int32     { yield("AddInt32"); return real.AddInt32(addr, delta) }
-func LoadUint64(addr *uint64) uint64              { yield("LoadUint64"); return real.LoadUint64(addr) }
-func LoadUint32(addr *uint32) uint32              { yield("LoadUint32"); return real.LoadUint32(addr) }
-func LoadInt64(addr *int64) int64                 { yield("LoadInt64"); return real.LoadInt64(addr) }
-func LoadInt32(addr *int32) int32                 { yield("LoadInt32"); return real.LoadInt32(addr) }
-func StoreUint64(addr *uint64, v uint64)          { yield("StoreUint64"); real.StoreUint64(addr, v) }
-func StoreUint32(addr *uint32, v uint32)          { yield("StoreUint32"); real.StoreUint32(addr, v) }
-func StoreInt64(addr *int64, v int64)             { yield("StoreInt64"); real.StoreInt64(addr, v) }
-func StoreInt32(addr *int32, v int32)             { yield("StoreInt32"); real.StoreInt32(addr, v) }
-func SwapUint64(addr *uint64, v uint64) uint64    { yield("SwapUint64"); return real.SwapUint64(addr, v) }
-func SwapUint32(addr *uint32, v uint32) uint32    { yield("SwapUint32"); return real.SwapUint32(addr, v) }
-func SwapInt64(addr *int64, v int64) int64        { yield("SwapInt64"); return real.SwapInt64(addr, v) }
-func SwapInt32(addr *int32, v int32) int32        { yield("SwapInt32"); return real.SwapInt32(addr, v) }
+func AddUint64(addr *uint64, delta uint64) uint64 {
+	yield("AddUint64")
+	return real.AddUint64(addr, delta)
+}
+func AddUint32(addr *uint32, delta uint32) uint32 {
+	yield("AddUint32")
+	return real.AddUint32(addr, delta)
+}
+func AddInt64(addr *int64, delta int64) int64  { yield("AddInt64"); return real.AddInt64(addr, delta) }
+func AddInt32(addr *int32, delta int32) int32  { yield("AddInt32"); return real.AddInt32(addr, delta) }
+func LoadUint64(addr *uint64) uint64           { yield("LoadUint64"); return real.LoadUint64(addr) }
+func LoadUint32(addr *uint32) uint32           { yield("LoadUint32"); return real.LoadUint32(addr) }
+func LoadInt64(addr *int64) int64              { yield("LoadInt64"); return real.LoadInt64(addr) }
+func LoadInt32(addr *int32) int32              { yield("LoadInt32"); return real.LoadInt32(addr) }
+func StoreUint64(addr *uint64, v uint64)       { yield("StoreUint64"); real.StoreUint64(addr, v) }
+func StoreUint32(addr *uint32, v uint32)       { yield("StoreUint32"); real.StoreUint32(addr, v) }
+func StoreInt64(addr *int64, v int64)          { yield("StoreInt64"); real.StoreInt64(addr, v) }
+func StoreInt32(addr *int32, v int32)          { yield("StoreInt32"); real.StoreInt32(addr, v) }
+func SwapUint64(addr *uint64, v uint64) uint64 { yield("SwapUint64"); return real.SwapUint64(addr, v) }
+func SwapUint32(addr *uint32, v uint32) uint32 { yield("SwapUint32"); return real.SwapUint32(addr, v) }
+func SwapInt64(addr *int64, v int64) int64     { yield("SwapInt64"); return real.SwapInt64(addr, v) }
+func SwapInt32(addr *int32, v int32) int32     { yield("SwapInt32"); return real.SwapInt32(addr, v) }
 func CompareAndSwapUint64(addr *uint64, o, n uint64) bool {
 	yield("CompareAndSwapUint64")
 	return real.CompareAndSwapUint64(addr, o, n)
